@@ -32,7 +32,7 @@ ASSUMPTIONS = ["the link layer reports the Bell state b of pair i and the state 
 
 BELLS = netstack.BELL_NAMES       # PHI_PLUS, PSI_PLUS, PSI_MINUS, PHI_MINUS
 HW = ["generic", "nv", "nv+transpiler"]
-RECV_VARIANTS = ["recv_keep", "recv_keep_with_info", "recv_rsp", "recv_rsp_with_info", "recv_keep:post"]
+RECV_VARIANTS = ["recv_keep", "recv_keep_with_info", "recv_rsp", "recv_rsp_with_info", "recv_keep:post", "recv_keep:seq1"]
 CREATE_VARIANTS = ["create_keep", "create_keep_with_info"]
 OTHER_STATE = [(3, 3), (5, 3)]      # rot_X(n, d) preparations of the unrelated live qubits
 
@@ -84,6 +84,10 @@ def check_keep(variant: str, hw: str, n: int, bells: Tuple[str, ...], others: in
             api = "recv_keep"
             kw["post_routine"] = lambda c, q, pair: q.rot_Z(n=0, d=0)
             kw["sequential"] = False
+        if variant == "recv_keep:seq1":
+            # sequential=True for a single pair without a post routine (accepted by the argument check)
+            api = "recv_keep"
+            kw["sequential"] = True
         res = getattr(epr, api)(**kw)
         qubits = res[0] if variant.endswith("with_info") else res
         conn.flush()
@@ -294,11 +298,14 @@ def shard_measure_pipeline(shard):
     for n in (1, 2, 3):
         for bells in itertools.product(BELLS, repeat=n):
             for expect in (True, False):
-                for raws, fmt in itertools.product(itertools.product((0, 1), repeat=n), ("native", "qlink_1_0")):
+                for raws, fmt, role in itertools.product(itertools.product((0, 1), repeat=n), ("native", "qlink_1_0"), ("recv", "create")):
+                    if role == "create" and not expect:
+                        continue          # the creator has no expectation switch
                     part["evals"] += 1
                     part["distinct"] += 1
-                    case = {"variant": "recv_measure", "number": n, "bell_states": list(bells), "raw": list(raws), "expect_phi_plus": expect,
+                    case = {"variant": f"{role}_measure", "number": n, "bell_states": list(bells), "raw": list(raws), "expect_phi_plus": expect,
                             "format": fmt}
+                    dirflag = 1 if role == "recv" else 0
                     ctrl, conn, epr, link = make_world("generic", "native", bells)
                     queue = list(range(n))
 
@@ -310,24 +317,26 @@ def shard_measure_pipeline(shard):
                             # qlink-interface 1.0 objects (Bell states and bases named, never numbered: the two numberings differ)
                             import qlink_interface as ql
                             ctrl.executor._handle_epr_response(ql.ResMeasureDirectly(
-                                create_id=0, measurement_outcome=raws[p], measurement_basis=ql.MeasurementBasis.Z, directionality_flag=1,
+                                create_id=0, measurement_outcome=raws[p], measurement_basis=ql.MeasurementBasis.Z, directionality_flag=dirflag,
                                 sequence_number=p, purpose_id=0, remote_node_id=1, goodness=1, bell_state=ql.BellState[bells[p]]))
                             return
                         ctrl.executor._handle_epr_response(LinkLayerOKTypeM(
-                            type=ReturnType.OK_M, create_id=0, measurement_outcome=raws[p], measurement_basis=0, directionality_flag=1,
+                            type=ReturnType.OK_M, create_id=0, measurement_outcome=raws[p], measurement_basis=0, directionality_flag=dirflag,
                             sequence_number=p, purpose_id=0, remote_node_id=1, goodness=1, bell_state=BellState[bells[p]]))
                     ctrl.executor.on_wait = on_wait
                     try:
-                        res = epr.recv_measure(number=n, expect_phi_plus=expect)
+                        res = epr.recv_measure(number=n, expect_phi_plus=expect) if role == "recv" else epr.create_measure(number=n)
                         conn.flush()
                         outs = [r.measurement_outcome for r in res]
                     except Exception as exc:
-                        add_violation(part, f"raises/generic/recv_measure/{fmt}", f"{type(exc).__name__}: {str(exc)[:120]}", case)
+                        add_violation(part, f"raises/generic/{role}_measure/{fmt}", f"{type(exc).__name__}: {str(exc)[:120]}", case)
                         continue
                     for p in range(n):
-                        flip = expect and bells[p] in ("PSI_PLUS", "PSI_MINUS")     # Z basis: X-type errors flip the outcome
+                        # Z basis: X-type errors flip the outcome - on the receiving side only; if the creator flipped too, the
+                        # two flips would cancel and the pair would look like the raw Bell state again
+                        flip = role == "recv" and expect and bells[p] in ("PSI_PLUS", "PSI_MINUS")
                         if outs[p] != (raws[p] ^ 1 if flip else raws[p]):
-                            add_violation(part, f"measure-pipeline/{'expect' if expect else 'no-correction'}/{fmt}",
+                            add_violation(part, f"measure-pipeline/{'creator' if role == 'create' else 'expect' if expect else 'no-correction'}/{fmt}",
                                           f"pair {p} (delivered {bells[p]}, raw {raws[p]}): post-processed outcome {outs[p]}", case)
                             break
                     else:
@@ -381,7 +390,7 @@ def run(ctx):
     for variant in RECV_VARIANTS + CREATE_VARIANTS:
         for hw in HW:
             for n in range(1, nmax + 1):
-                if variant.startswith("create") and n > 2:
+                if (variant.startswith("create") and n > 2) or (variant == "recv_keep:seq1" and n > 1):
                     continue
                 shards.append(("keep", variant, hw, n, ctx.tier))
     for hw in HW:
@@ -401,7 +410,7 @@ def run(ctx):
 def replay(case, part):
     if case.get("measure"):
         part["violations"].extend(shard_measure(("meas",))["violations"])
-    elif case.get("variant") == "recv_measure":
+    elif case.get("variant") in ("recv_measure", "create_measure"):
         part["violations"].extend(shard_measure_pipeline(("measpipe",))["violations"])
     elif case.get("variant") == "recv_keep:sequential":
         check_sequential(case["hardware"], case["number"], tuple(case["bell_states"]), case["post_basis"], case["expect_phi_plus"], part,
